@@ -1,5 +1,6 @@
 import XvcIgnore.GitLemmas
 import XvcIgnore.GitMono
+import XvcIgnore.GitDir
 /-!
   # C16 — Tracked data files never enter Git
 
@@ -339,6 +340,48 @@ theorem C16_history_track_reestablishes_ignore (hist : List Step) (r0 : Repo) (d
   rw [List.foldl_append]
   exact C16_track_reestablishes_ignore _ date dirs files carried x hx hdir hd hdn hsane hcn ht hK6b hK6a hK12
 
+/-- **Directory targets.**  `xvc file track out/` (again for every store and every prior ignore state): when
+    xvc's matcher does not consider the directory covered, `/out/` is appended to the parent's
+    `.gitignore`, and git then ignores the directory and every entry below it — also after the file
+    part of the same command and the carry-in handler have run.  Excluded regions as for files: `hK6b`
+    literal name, `hK6a` not whitelisted for xvc's matcher, `hK12` when xvc believes the directory
+    already ignored, git agrees about the entry in question. -/
+theorem C16_track_dir_reestablishes_ignore (r : Repo) (date : Str) (dirs files carried : List Target) (d : Target)
+    (below : List Str) (isDir : Bool) (hb : below ≠ [] ∨ isDir = true)
+    (hmem : d ∈ dirs) (hdir : (contentAt d.dir r.tree).isSome = true)
+    (hd : '\n' ∉ date) (hdn : ∀ y ∈ dirs, '\n' ∉ y.name) (hsane : ∀ y ∈ files, '\n' ∉ y.name)
+    (hcn : ∀ y ∈ carried, '\n' ∉ y.name) (ht : NoLoneCR r.tree)
+    (hK6b : PlainName d.name)
+    (hK6a : check (gitRules r.tree) d.pathStr ≠ .whitelist)
+    (hK12 : check (gitRules r.tree) d.pathStr = .ignore → gitIgnored r.tree (d.dir ++ d.name :: below) isDir = true) :
+    gitIgnored (trackCmd date dirs files carried r).tree (d.dir ++ d.name :: below) isDir = true := by
+  obtain ⟨a1, a2⟩ := dirs_more (gitRules r.tree) date dirs r.tree hd hdn ht
+  have h1 : gitIgnored (updateDirGitignores (gitRules r.tree) date dirs r.tree) (d.dir ++ d.name :: below) isDir = true := by
+    cases hc : check (gitRules r.tree) d.pathStr with
+    | noMatch =>
+      unfold updateDirGitignores
+      apply dir_ignored_after_writeGroups date _ r.tree d ?_ hK6b ?_ hdir below isDir hb
+      · exact List.mem_filter.2 ⟨hmem, by simp [hc]⟩
+      · intro y hy; exact hdn y (List.mem_filter.1 hy).1
+    | ignore => exact gitIgnored_of_readsLikeMore _ _ a1 _ _ (hK12 hc)
+    | whitelist => exact absurd hc hK6a
+  obtain ⟨b1, _⟩ := files_more (gitRules (updateDirGitignores (gitRules r.tree) date dirs r.tree)) date files _ hd hsane a2
+  have hT := (cmd_more (.track date dirs files) ⟨hd, hdn, hsane⟩ r.tree ht).2
+  obtain ⟨c1, _⟩ := cmd_more (.handler date [] carried) ⟨hd, by simp, hcn⟩ _ hT
+  exact gitIgnored_of_readsLikeMore _ _ c1 _ _ (gitIgnored_of_readsLikeMore _ _ b1 _ _ h1)
+
+/-- non-vacuity: `out/` was tracked as a whole, the user deleted the line `/out/`; tracking the directory
+    again ignores the directory and the recorded file below it -/
+example :
+    let d : Target := ⟨[], "out".toList⟩
+    let r : Repo := ⟨[⟨["out".toList], "model.bin".toList⟩], .node "*.log\n".toList [] [("out".toList, .node [] [] [])]⟩
+    check (gitRules r.tree) d.pathStr = .noMatch ∧ PlainName d.name ∧
+    gitIgnored r.tree ["out".toList, "model.bin".toList] false = false ∧
+    gitIgnored (trackCmd "D".toList [d] [⟨["out".toList], "model.bin".toList⟩] [] r).tree ["out".toList] true = true ∧
+    gitIgnored (trackCmd "D".toList [d] [⟨["out".toList], "model.bin".toList⟩] [] r).tree ["out".toList, "model.bin".toList] false = true ∧
+    contentAt [] (trackCmd "D".toList [d] [⟨["out".toList], "model.bin".toList⟩] [] r).tree =
+      some "*.log\n### Following 1 lines are added by xvc on D\n/out/\n".toList := by decide
+
 /-- non-vacuity, scenario 1 of the seeded defect C16-1: `out/model.bin` is recorded, `out/` was deleted
     together with `out/.gitignore` and regenerated with identical content (nothing is carried); the
     path is not ignored before and is ignored after the second `xvc file track out/model.bin`; the
@@ -486,6 +529,8 @@ open Ign.Git in
 #print axioms C16_tracked_stays_ignored
 open Ign.Git in
 #print axioms C16_track_reestablishes_ignore
+open Ign.Git in
+#print axioms C16_track_dir_reestablishes_ignore
 open Ign.Git in
 #print axioms C16_track_ignores_independent_of_store
 open Ign.Git in
